@@ -104,7 +104,7 @@ func (e *Engine) noteContractUse(fc *FuncContract) { e.usedFC[fc.Pkg+"::"+fc.Key
 
 // header returns the SMT-LIB prelude needed by vc: global declarations plus the
 // closure of the spec functions it used.
-func (e *Engine) header(vc *VC) []string {
+func (e *Engine) header(vc *VC, cover bool) []string {
 	used := map[string]bool{}
 	for k := range e.used[vc] {
 		if strings.HasPrefix(k, "spec:") {
@@ -115,7 +115,11 @@ func (e *Engine) header(vc *VC) []string {
 		"(declare-const Sin (Array (_ BitVec 32) (Array (_ BitVec 64) (_ BitVec 8))))",
 		"(declare-const Send (Array (_ BitVec 32) (_ BitVec 64)))",
 	}
-	return append(out, e.spec.closure(used)...)
+	out = append(out, e.spec.closure(used)...)
+	if cover {
+		return append(out, vc.hdrCover...)
+	}
+	return append(out, vc.hdr...)
 }
 
 // funcKey is the contract key of an SSA function: "Name", "(T).Name" or "(*T).Name".
